@@ -32,6 +32,9 @@ CHECKS = {
  'C07': ('model_checking', 'symbolic execution of clang LLVM IR of ConsistentUnit / RelatedUnitSystem (system or unit symbolic, including three-call sequences from the initial state) over tables built by executing their own initialisers, plus exact rational comparison of every consistent unit with the product of its system\'s base units by an independent unit-symbol expander',
          'All 148 consistent units are shown exactly coherent (rational identity by O-unit); the reverse table is the inverse of the forward one; both lookups are executed with symbolic keys and shown to return the table entries, never to throw for a declared system, and to carry no state between consecutive lookups of neighbouring unit types.',
          'O-unit readings and the four base-unit sets; map summaries; the conversion code is tied to the symbols by C01; ground facts evaluated directly', '3 C07'),
+ 'C06': ('model_checking', 'bit-precise (z3 QF_BV) symbolic execution of the Dimensions comparison operators and hash for all int8 exponent tuples; symbolic execution of Dimensions::Print over all 16384 sign patterns with std::string summarised; declared dimension sets compared with an independent unit-symbol expander',
+         'The exponent vector O-unit derives from each of the 514 unit symbols equals the declared set of its type; every quantity reports its unit type\'s set; ==,!=,<,>,<=,>= and std::hash of Dimensions and Dimension::X coincide with the 7-tuple order/equality/polynomial hash for all 2^112 pairs; Print() produces the specified text on every sign pattern of the exponents.',
+         'O-unit dimensions of symbols; std::to_string uninterpreted; std::string summaries', '3 C06'),
 }
 NA = {}
 def main():
